@@ -156,11 +156,33 @@ func c10BadElemBuild() [][]byte {
 	bad5 := ref.Enc(g)
 	bad5[0] = 5
 
-	return [][]byte{
+	out := [][]byte{
 		append([]byte{2}, ref.Bytes32(big.NewInt(off))...), // x in range, not on the curve
 		append([]byte{3}, ref.Bytes32(ref.P)...),           // x = p
 		bad5, ref.Enc(g)[:32], unc, {1},
 	}
+
+	// non-canonical aliases of valid points: x + p resp. y + p still fits 32 bytes for tiny coordinates
+	for _, np := range Points() {
+		if np.P.Inf {
+			continue
+		}
+
+		if np.P.X.BitLen() <= 16 {
+			out = append(out, append(append([]byte{4}, ref.Bytes32(new(big.Int).Add(np.P.X, ref.P))...), ref.Bytes32(np.P.Y)...),
+				append([]byte{byte(2 + np.P.Y.Bit(0))}, ref.Bytes32(new(big.Int).Add(np.P.X, ref.P))...))
+		}
+
+		if np.P.Y.BitLen() <= 16 {
+			out = append(out, append(append([]byte{4}, ref.Bytes32(np.P.X)...), ref.Bytes32(new(big.Int).Add(np.P.Y, ref.P))...))
+		}
+
+		if len(out) >= 12 {
+			break
+		}
+	}
+
+	return out
 }
 
 // c10Sparse is a scalar with all-zero 64-bit words between non-zero ones and a short top word: 2^200 + 3.
